@@ -224,9 +224,80 @@ fn exit_context_family(sh: &mut Shard) {
     }
 }
 
+/// Depth-bounded control templates (complementing the size-bounded ones): single-statement blocks nested
+/// to depth `d`: every statement is a leaf {trace, stop, volgende, antwoord, declaration, empty block,
+/// value} or als / als-anders / loop / block around deeper statements; conditions come from the
+/// parameters a, b of the enclosing function, called with all four truth assignments.
+fn depth_templates(d: usize, in_loop: bool, f: &mut dyn FnMut(&Stmt) -> bool) -> bool {
+    let mut leaves: Vec<Stmt> = vec![print1(int(7)), Stmt::Return(int(2)), let_("v", int(3)), Stmt::Block(vec![]), es(int(1))];
+    if in_loop {
+        leaves.push(Stmt::Break);
+        leaves.push(Stmt::Continue);
+    }
+    for l in &leaves {
+        if !f(l) {
+            return false;
+        }
+    }
+    if d == 0 {
+        return true;
+    }
+    for c in ["a", "b"] {
+        // als c { S }
+        if !depth_templates(d - 1, in_loop, &mut |s| f(&es(iff(id(c), vec![s.clone()], None)))) {
+            return false;
+        }
+        // als c { S } anders { T }
+        let ok = depth_templates(d - 1, in_loop, &mut |s| {
+            depth_templates(d - 1, in_loop, &mut |t| f(&es(iff(id(c), vec![s.clone()], Some(vec![t.clone()])))))
+        });
+        if !ok {
+            return false;
+        }
+    }
+    // a loop that runs twice around S
+    let ok = depth_templates(d - 1, true, &mut |s| {
+        f(&Stmt::Block(vec![
+            let_("n", int(0)),
+            es(whil(infix(id("n"), Operator::Lt, int(2)), vec![es(assign(id("n"), infix(id("n"), Operator::Add, int(1)))), s.clone()])),
+        ]))
+    });
+    if !ok {
+        return false;
+    }
+    depth_templates(d - 1, in_loop, &mut |s| f(&Stmt::Block(vec![s.clone()])))
+}
+
+fn depth_family(sh: &mut Shard, tier: Tier) {
+    let d = 2;
+    let _ = tier;
+    depth_templates(d, false, &mut |s| {
+        // as the only statement, and followed by a trailing value
+        for tail in [false, true] {
+            if !sh.mine() {
+                continue;
+            }
+            let mut body = vec![s.clone()];
+            if tail {
+                body.push(es(int(9)));
+            }
+            let mut prog = vec![es(func("t", &["a", "b"], body))];
+            for (a, b) in [(true, true), (true, false), (false, true), (false, false)] {
+                prog.push(es(calln("print", vec![array(vec![int(5), calln("t", vec![boolean(a), boolean(b)]), int(6)])])));
+            }
+            renumber_prints(&mut prog);
+            sh.begin(&|| printer::program(&prog));
+            sh.count("family:depth-templates");
+            check_program(sh, "depth-templates", &prog, 50_000);
+        }
+        sh.running()
+    });
+}
+
 fn run(sh: &mut Shard) {
     let tier = sh.cfg.tier;
     exit_context_family(sh);
+    depth_family(sh, tier);
     residue_family(sh, tier);
     let sl = ctl_slice();
     crate::slices::for_each_program(&sl, tier, sh, &mut |sh, prog| {
